@@ -1,1 +1,113 @@
-/-! Property theorems for C05 (statements + proofs by reference to `Proof/`). Not built yet. -/
+import GraafVerif.Proof.BfsC05
+import GraafVerif.Proof.BfsDesc
+/-!
+# C05 (BFS half) — predecessor trees and shortest paths from BFS are valid and optimal;
+# every sequence returned by `BfsPred::cycles()` is an elementary cycle
+
+Only statements and proofs by reference.  `bfsPred`, `predecessors`, `shortestPath`, `cycles`
+(Model/Bfs.lean) model `BfsPred`'s iterator and its three methods; they call the C19 model
+`PredTree.searchBy` / `search` exactly where the Rust code calls `search_by` / `search`.
+Hypotheses = the property's quantifier: a well-formed digraph with at least one vertex
+(`PredecessorTree::new` asserts `order > 0`; no representation can have order 0 through
+`empty`), distinct in-range sources, any target predicate.  `Res.ok` = the call does not panic.
+The `DijkstraPred` half of C05 is in `Thm/C05Dijkstra.lean`.
+-/
+namespace GraafVerif.C05
+open GraafVerif GraafVerif.Bfs GraafVerif.PredTree
+
+/-- The conclusions of the BFS half of C05 for one digraph and one source list
+(`dist` = hop distance, `w = 1`). -/
+def Holds (g : Graph) (S : List Nat) : Prop :=
+    -- predecessors(): sources and unreachable vertices have no predecessor; every other reachable
+    -- vertex v has a predecessor u with u -> v an arc and dist(u) + 1 = dist(v); following the
+    -- predecessors from v reaches a source along a shortest path
+    (∃ pred, predecessors g S = .ok pred ∧ pred.length = g.n ∧
+      (∀ s ∈ S, pred[s]? = some none) ∧
+      (∀ v, v < g.n → ¬ ReachFrom g S v → pred[v]? = some none) ∧
+      (∀ v, ReachFrom g S v → v ∉ S →
+        ∃ u d, pred[v]? = some (some u) ∧ g.A u v ∧ IsHopDist g S u d ∧ IsHopDist g S v (d + 1)) ∧
+      (∀ v d, IsHopDist g S v d →
+        ∃ cs, searchBy pred v (fun _ b => b.isNone) = .ret (some cs) ∧ cs.length = d + 1 ∧
+          IsWalk g cs.reverse ∧ (∃ s ∈ S, cs.getLast? = some s) ∧ cs.head? = some v)) ∧
+    -- shortest_path(is_target): None exactly when no reachable vertex satisfies the predicate;
+    -- otherwise a walk from a source to a target whose length is the minimum over all targets
+    (∀ isT : Nat → Bool, ∃ r, shortestPath g S isT = .ok r ∧
+      (r = none ↔ ¬ ∃ v, ReachFrom g S v ∧ isT v = true) ∧
+      (∀ p, r = some p → ∃ s t, p.head? = some s ∧ p.getLast? = some t ∧ s ∈ S ∧ isT t = true ∧
+        IsWalk g p ∧ IsHopDist g S t (p.length - 1) ∧
+        ∀ t' d', isT t' = true → IsHopDist g S t' d' → p.length - 1 ≤ d')) ∧
+    -- cycles(): every returned sequence is an elementary cycle of the digraph
+    (∃ cs, cycles g S = .ok cs ∧ ∀ c ∈ cs, IsElemCycle g c)
+
+/-- Full statement of the BFS half of C05: for every digraph with at least one vertex and every
+list of distinct in-range sources (the target predicate is quantified inside `Holds`). -/
+def Statement : Prop :=
+  ∀ (g : Graph) (S : List Nat), g.WF → 0 < g.n → (∀ s ∈ S, s < g.n) → S.Nodup → Holds g S
+
+/-- `BfsPred::predecessors()` is a shortest-path tree. -/
+theorem bfsPred_tree (g : Graph) (hg : g.WF) (hn : 0 < g.n) (S : List Nat) (hS : ∀ s ∈ S, s < g.n)
+    (hnd : S.Nodup) : ∃ pred, predecessors g S = .ok pred ∧ PredSpec g S pred :=
+  predecessors_spec g hg hn S hS hnd
+
+/-- `BfsPred::shortest_path(is_target)`. -/
+theorem bfs_shortest_path (g : Graph) (hg : g.WF) (hn : 0 < g.n) (S : List Nat) (hS : ∀ s ∈ S, s < g.n)
+    (hnd : S.Nodup) (isT : Nat → Bool) : ∃ r, shortestPath g S isT = .ok r ∧ SPSpec g S isT r :=
+  shortestPath_spec g hg hn S hS hnd isT
+
+/-- `BfsPred::cycles()`: every returned list is an elementary cycle. -/
+theorem bfs_cycles_elementary (g : Graph) (hg : g.WF) (hn : 0 < g.n) (S : List Nat) (hS : ∀ s ∈ S, s < g.n)
+    (hnd : S.Nodup) : ∃ cs, cycles g S = .ok cs ∧ ∀ c ∈ cs, IsElemCycle g c :=
+  cycles_spec g hg hn S hS hnd
+
+/-- The `BfsPred` iterator visits the vertices of `BfsDist` in the same order: both are
+projections of one run (for every input, panics included). -/
+theorem bfsPred_vertices_eq (g : Graph) (S : List Nat) :
+    (bfsPred g S).map (List.map (·.1)) = (bfsDist g S).map (List.map (·.1)) := by
+  rw [bfsPred_eq_full, bfsDist_eq_full]
+  cases iter g labFull S <;> simp [Res.map, Function.comp_def]
+
+/-- Fuel adequacy for the `BfsPred` iterator (`labFull` is its level-carrying refinement). -/
+theorem bfsPred_fuel_adequate (g : Graph) (hg : g.WF) (S : List Nat) (hS : ∀ s ∈ S, s < g.n) (hnd : S.Nodup)
+    (fuel : Nat) (hf : g.n < fuel) :
+    ∃ st, new g labFull S = .ok st ∧ run g labFull fuel st = iter g labFull S :=
+  iter_fuel g hg labFull (·.1) isLevel_full S hS hnd fuel hf
+
+/-- The full statement. -/
+theorem c05_bfs : Statement := by
+  intro g S hg hn hS hnd
+  refine ⟨?_, ?_, cycles_spec g hg hn S hS hnd⟩
+  · obtain ⟨pred, hp, h⟩ := predecessors_spec g hg hn S hS hnd
+    exact ⟨pred, hp, h.len, h.src, h.unreach, h.tree, h.chain⟩
+  · intro isT
+    obtain ⟨r, hr, h⟩ := shortestPath_spec g hg hn S hS hnd isT
+    exact ⟨r, hr, h.none_iff, h.path⟩
+
+/-- The same for digraphs given the way the harness gives them to the real code: an order and
+an arc list over `0..n` (`Graph.ofRows (rowsOfArcs n arcs)` = the driver's `GDesc.graph`). -/
+theorem c05_bfs_arcs (n : Nat) (hn : 0 < n) (arcs : List (Nat × Nat)) (harcs : ∀ a ∈ arcs, a.1 < n ∧ a.2 < n)
+    (S : List Nat) (hS : ∀ s ∈ S, s < n) (hnd : S.Nodup) :
+    let g := Graph.ofRows (rowsOfArcs n arcs)
+    g.n = n ∧ (∀ u v, g.A u v ↔ (u, v) ∈ arcs) ∧ Holds g S := by
+  obtain ⟨h1, h2, h3⟩ := ofArcRows_spec n arcs harcs
+  exact ⟨h1, h2, c05_bfs _ S h3 (by rw [h1]; exact hn) (by rw [h1]; exact hS) hnd⟩
+
+/-! ### Non-vacuity: the doc digraph `g0` (`Model/Bfs.lean`) with sources `[3, 7]` meets the
+hypotheses; the outputs below are non-trivial (a tree of depth 3, a path of 3 arcs, cycles). -/
+
+theorem g0_wf : g0.WF := by
+  intro u v h
+  unfold g0 Graph.out at *
+  simp only at h ⊢
+  split at h <;> simp at h <;> omega
+
+example : 0 < g0.n ∧ (∀ s ∈ [3, 7], s < g0.n) ∧ [3, 7].Nodup := by decide
+example : predecessors g0 [3, 7] = .ok [some 3, some 0, some 1, none, some 1, some 6, some 7, none] := by
+  decide
+example : shortestPath g0 [3, 7] (fun v => v == 2) = .ok (some [3, 0, 1, 2]) := by decide
+example : shortestPath g0 [3, 7] (fun v => v == 4 || v == 5) = .ok (some [7, 6, 5]) := by decide
+example : shortestPath g0 [4] (fun v => v == 2) = .ok none := by decide
+example : cycles g0 [0] = .ok [[0, 1, 2, 3], [6, 7]] := by decide
+example : ∃ cs, cycles g0 [0] = .ok cs ∧ ∀ c ∈ cs, IsElemCycle g0 c :=
+  bfs_cycles_elementary g0 g0_wf (by decide) [0] (by decide) (by decide)
+
+end GraafVerif.C05
